@@ -177,11 +177,13 @@ def generate_cases(workdir, name, extends, cfg, defs="", timeout=600, workers=1,
     return path, res
 
 
-def validate_trace(workdir, name, extends, trace_path, invariants=(), timeout=900, defs="", heap="4g", consts=None):
+def validate_trace(workdir, name, extends, trace_path, invariants=(), timeout=900, defs="", heap="4g", consts=None, cfg_extra=""):
     """Validates a recorded trace against a trace specification.  Returns (accepted, info, TlcResult)."""
     cfg = "SPECIFICATION TraceSpec\nPOSTCONDITION TraceAccepted\nCHECK_DEADLOCK FALSE\n"
     if consts:
         cfg += "CONSTANTS\n" + "".join(" %s = %s\n" % (k, v) for k, v in consts.items())
+    if cfg_extra:
+        cfg += ("" if consts else "CONSTANTS\n") + cfg_extra
     for inv in invariants:
         cfg += "INVARIANT %s\n" % inv
     res = run_tlc(workdir, name, extends, cfg, defs=defs, workers=1, timeout=timeout, deque=True, heap=heap,
